@@ -907,7 +907,7 @@ def run_park(spec, acc):
     # first; closed points get their remaining combinations afterwards.
     queue = deque((pt, 'rel', rng.choice(states)) for pt in points)
     # every racing call x queue state at least once, whatever the park point
-    for r in racings:
+    for r in racings + (['tempo-up'] * 3 if 'tempo-up' in racings else []):
         for st_ in states:
             pt = rng.choice(points)
             if legal(pt[0], r, st_, pt[3]):
